@@ -527,6 +527,28 @@ fn rt_body(c: &RtCase, t: &RtTables) -> Outcome {
             }
         }
     }
+    // path 4: a unary caller; the peer has sent its response headers already and delivers the
+    // status in the trailers
+    if x.code != tables::OK {
+        match catch_unwind(AssertUnwindSafe(|| unary_error_after_headers(status.clone()))) {
+            Err(_) => o.violate("client-panic", "client::Grpc::unary panicked"),
+            Ok(Err(why)) => o.violate("unary-client-status-lost", why),
+            Ok(Ok(s)) => {
+                obs.push_str(&format!(" unary=ERR {}", fmt_status(&s)));
+                if code_num(s.code()) != x.code || s.message() != x.msg {
+                    o.violate("unary-client-code-message", format!("unary client: {} {:?} came out as {:?} {:?}", code_name(x.code), x.msg, s.code(), s.message()));
+                }
+                if s.details() != x.details {
+                    o.violate("unary-client-details", format!("unary client: details {} came out as {}", hex(x.details), hex(s.details())));
+                }
+                match observed_metadata(&s.metadata().clone().into_headers(), &["content-type", "x-initial"]) {
+                    Ok(md) if md == x.md => {}
+                    Ok(md) => o.violate("unary-client-metadata", format!("unary client: metadata came out as {md:?}, expected {:?}", x.md)),
+                    Err(er) => o.violate("unary-client-metadata", format!("unary client: {er}")),
+                }
+            }
+        }
+    }
     o.obs = obs;
     o
 }
@@ -570,6 +592,43 @@ impl tower_service::Service<http::Request<tonic::body::Body>> for TrailersOnlyLa
         let (parts, _) = st.into_http::<tonic::body::Body>().into_parts();
         let body = crate::env::ScriptBody::new(Vec::<u8>::new(), None, crate::env::Chunking::Fixed(vec![]), &crate::explore::Chooser::detached());
         std::future::ready(Ok(http::Response::from_parts(parts, body)))
+    }
+}
+
+/// A transport that answers with response headers first (200, application/grpc, one custom entry)
+/// and delivers `status` afterwards in the trailers of a body without messages — what a peer
+/// does that has already sent its headers when the call fails.
+struct HeadersThenTrailers(Option<Status>);
+
+impl tower_service::Service<http::Request<tonic::body::Body>> for HeadersThenTrailers {
+    type Response = http::Response<crate::env::ScriptBody>;
+    type Error = Status;
+    type Future = std::future::Ready<Result<Self::Response, Status>>;
+    fn poll_ready(&mut self, _: &mut Context<'_>) -> Poll<Result<(), Status>> {
+        Poll::Ready(Ok(()))
+    }
+    fn call(&mut self, _req: http::Request<tonic::body::Body>) -> Self::Future {
+        let st = self.0.take().unwrap_or_else(|| crate::explore::machinery("transport called twice"));
+        let mut trailers = HeaderMap::new();
+        if let Err(e) = st.add_header(&mut trailers) {
+            return std::future::ready(Err(e));
+        }
+        let body = crate::env::ScriptBody::new(Vec::<u8>::new(), Some(trailers), crate::env::Chunking::Fixed(vec![]), &crate::explore::Chooser::detached());
+        let mut r = http::Response::new(body);
+        r.headers_mut().insert("content-type", HeaderValue::from_static("application/grpc"));
+        r.headers_mut().insert("x-initial", HeaderValue::from_static("1"));
+        std::future::ready(Ok(r))
+    }
+}
+
+/// What a UNARY caller gets when `status` (non-OK) arrives in trailers after response headers.
+pub fn unary_error_after_headers(status: Status) -> Result<Status, String> {
+    let mut grpc = tonic::client::Grpc::new(HeadersThenTrailers(Some(status)));
+    let fut = grpc.unary(tonic::Request::new(vec![1u8]), http::uri::PathAndQuery::from_static("/s/m"), RawCodec::default());
+    match crate::env::spin_block_on(fut, 64) {
+        Err(_) => Err("the unary call did not complete".into()),
+        Ok(Ok(_)) => Err("the unary call succeeded although the peer ended it with an error status".into()),
+        Ok(Err(s)) => Ok(s),
     }
 }
 
@@ -1270,7 +1329,7 @@ pub fn property(tier: Tier) -> Property {
     let roundtrip = Section::new(
         "roundtrip",
         cfg.clone(),
-        "cases: (A) every message of the menu (\"\", every ASCII char 00-7F, every ordered pair [thorough: triple] over a 20-char class menu of controls/space/%/\"#<>?`{}/DEL/letters/hex digits, %-followed-by-hex literals, 16 multi-byte scalars alone and next to each class char, lengths 3..64 [thorough ..8191]) x all 17 codes; (B) every details byte string of length <= 2 (65 793), every string of length 3..=6 [thorough 3..=7] over {00,3e,3f,7f,80,ff}, every length 8..=70 and 255/256/257/1000 x 3 fill patterns; (C) 17 codes x 8 messages x 8 details x every metadata map of the menu (ascii/binary/repeated/interleaved keys, all six reserved names forged). Each status is written with add_header and with into_http; the raw header bytes are judged by hand-written percent/base64 decoders and must be legal field values, then from_header_map must return an equal status (code, message, details, sanitized metadata in per-key order; content-type of into_http ignored); the into_http response is also handed to the real client (client::Grpc::server_streaming -> create_response), once with a body that is already at its end and once with a body whose end of stream arrives separately (a peer closing the stream with an empty DATA frame), and the error it returns must equal the original status (OK: successful response, clean end). Non-trivial = message has a byte that must be percent-encoded, or details non-empty, or metadata non-empty",
+        "cases: (A) every message of the menu (\"\", every ASCII char 00-7F, every ordered pair [thorough: triple] over a 20-char class menu of controls/space/%/\"#<>?`{}/DEL/letters/hex digits, %-followed-by-hex literals, 16 multi-byte scalars alone and next to each class char, lengths 3..64 [thorough ..8191]) x all 17 codes; (B) every details byte string of length <= 2 (65 793), every string of length 3..=6 [thorough 3..=7] over {00,3e,3f,7f,80,ff}, every length 8..=70 and 255/256/257/1000 x 3 fill patterns; (C) 17 codes x 8 messages x 8 details x every metadata map of the menu (ascii/binary/repeated/interleaved keys, all six reserved names forged). Each status is written with add_header and with into_http; the raw header bytes are judged by hand-written percent/base64 decoders and must be legal field values, then from_header_map must return an equal status (code, message, details, sanitized metadata in per-key order; content-type of into_http ignored); the into_http response is also handed to the real client (client::Grpc::server_streaming -> create_response), once with a body that is already at its end and once with a body whose end of stream arrives separately (a peer closing the stream with an empty DATA frame), and the error it returns must equal the original status (OK: successful response, clean end); every non-OK status is also delivered to a UNARY caller in the trailers that follow already-sent response headers, and the caller's error must again equal it. Non-trivial = message has a byte that must be percent-encoded, or details non-empty, or metadata non-empty",
         rt_list,
         move |c: &RtCase| {
             format!(
